@@ -103,3 +103,29 @@ def wide_text_specs(draw, kind):
                 t = main[q] if draw(st.integers(0, 9)) else Q[draw(st.integers(0, len(Q) - 1))]
                 d.append([q, a, t, Gm[draw(st.integers(0, len(Gm) - 1))], "LR"[draw(st.integers(0, 1))]])
     return {"Q": Q, "S": Sin, "G": Gm, "d": d, "q0": Q[0], "acc": acc, "rej": rej, "blank": blank}
+
+
+@st.composite
+def multichar_symbol_specs(draw, kind):
+    """DFAs / NFAs whose input symbols have several characters (the formats separate labels by commas, so `10`, `ab` are ordinary symbols): numbers that cross a
+    digit boundary (0 .. 10-12) or words that are prefixes / concatenations of each other; the transitions are listed in a generated order."""
+    assert kind in ("dfa", "nfa")
+    if draw(st.booleans()):
+        S = [str(i) for i in range(draw(st.integers(0, 1)), draw(st.integers(10, 12)) + 1)]
+    else:
+        S = draw(st.sampled_from([["a", "ab", "b"], ["a", "b", "ab", "ba"], ["x", "xy", "xyz", "yz", "z"], ["a", "aa", "aaa"], ["1", "11", "12", "2"]]))
+    n = draw(st.integers(1, 3))
+    Q = draw(G.names(n, G.POOL[:10]))
+    if kind == "dfa":
+        d = [[q, a, Q[draw(st.integers(0, n - 1))]] for q in Q for a in S]
+        d = list(draw(st.permutations(d)))
+        return {"Q": Q, "S": S, "d": d, "q0": Q[0], "F": G.finals(draw, Q), "eps": None}
+    eps = draw(st.sampled_from(PRINTABLE_EPS[:2]))
+    d = []
+    for q in Q:
+        for a in S + [eps]:
+            for t in Q:
+                if draw(st.integers(0, 3)) == 0:
+                    d.append([q, a, t])
+    d = list(draw(st.permutations(d)))
+    return {"Q": Q, "S": S, "d": d, "q0": Q[0], "F": G.finals(draw, Q), "eps": eps, "rep": "dd_set"}
